@@ -189,7 +189,10 @@ let oracle (toks : string list) (obs : string) : (string * bool) list =
          incr i) ops;
        let expected = (match !msgs with [] -> "." | l -> String.concat " " (List.rev l)) in
        let name = if mask = "-" then "C01.roundtrip" else "C08.drop_roundtrip" in
+       (* C19: once a chunk size has been accepted, the codec must keep working with it (C01 holds for that value) *)
+       let accepted_size = List.exists (function OSize (n, _) -> let n = int_of_n n in n >= 1 && n <= 2147483647 | _ -> false) ops in
        [name, decoded = expected; "C01.no_empty_packet", not (String.contains sent '0')]
+       @ (if accepted_size && mask = "-" then ["C19.accepted_chunk_size_yields_working_codec", decoded = expected] else [])
      | _ -> ["C01.observation_shape", false])
   | "fde" :: _ :: stream :: "|" :: expected ->
     let exp = String.concat " " expected in
